@@ -478,7 +478,10 @@ class Parser:
         :return: True on success (no error detected), False otherwise
         """
         if isinstance(text, str):
-            text = text.encode("utf-8")
+            # a lone surrogate cannot be encoded: let it through as the
+            # (invalid) bytes it stands for, so that it is reported as
+            # a parse error and not raised to the caller
+            text = text.encode("utf-8", "surrogatepass")
 
         self.__reset_parser()
         try:
